@@ -94,9 +94,9 @@ def BOUND(tier):
             % (4 if tier == 'quick' else 5))
 
 
-def multiset_space(menu, size, n_menu, step=1.0):
+def multiset_space(menu, size, n_menu, step=1.0, subset=None):
     combos = list(itertools.combinations_with_replacement(
-        range(n_menu), size))
+        subset if subset is not None else range(n_menu), size))
 
     def decode(i):
         case = {'menu': menu, 'pieces': list(combos[i])}
@@ -104,8 +104,12 @@ def multiset_space(menu, size, n_menu, step=1.0):
             case['step'] = step
         return case
     return Space('get_series_time_offsets/%s menu (%d of its pieces)/%d '
-                 'pieces%s' % (menu, n_menu, size,
-                               '' if step == 1.0 else '/grid step %g' % step),
+                 'pieces%s%s' % (menu, n_menu if subset is None
+                                 else len(subset), size,
+                                 '' if step == 1.0
+                                 else '/grid step %g' % step,
+                                 '' if subset is None else
+                                 '/pieces with equal initial levels'),
                  len(combos), decode)
 
 
@@ -246,6 +250,13 @@ def spaces(tier):
         for menu in ('recession', 'rise'):
             n_menu = 13 if (tier == 'thorough' or size < 4) else 8
             out.append(multiset_space(menu, size, n_menu))
+    # four or five different pieces that begin at the same level (ties in
+    # any ordering by initial level), with one that does not
+    out.append(multiset_space('recession', 4, 13, subset=[0, 10, 11, 12, 1]))
+    out.append(multiset_space('rise', 4, 13, subset=[0, 10, 11, 12, 1]))
+    if tier == 'thorough':
+        out.append(multiset_space('recession', 5, 13,
+                                  subset=[0, 10, 11, 12, 1]))
     # the same pieces on other level grids, in the same process
     for step in (0.5, 2.0):
         for menu in ('recession', 'rise'):
